@@ -5,7 +5,7 @@ induction principle for per-flow invariants of the code model (`flow_invariant`)
 flow of every reachable world.  Used by Props/C08 and Props/C02 for facts that are about the
 wrappers' own fields rather than about the byte logs.
 -/
-import SshuttleModel.Lemmas.TunnelStep
+import SshuttleModel.Lemmas.TunnelInv
 
 namespace Sshuttle.Tunnel
 open Sshuttle.Mux (Frame)
@@ -266,6 +266,15 @@ theorem step_flowsEv (w : World) (st : Step) : FlowsEv w.flows (w.step st).flows
     · exact FlowsEv.refl _
     · exact stepRaw_flowsEv w st
 
+theorem flow_invariant_step (I : Flow → Prop) (hnew : ∀ c, I (newFlow c))
+    (hev : ∀ f f', FlowEv f f' → I f → I f') (w : World) (h : ∀ f ∈ w.flows, I f) (st : Step) :
+    ∀ f ∈ (w.step st).flows, I f := by
+  intro f' hf'
+  obtain ⟨j, hj⟩ := List.getElem?_of_mem hf'
+  rcases step_flowsEv w st j f' hj with ⟨f, hf, hfe⟩ | ⟨_, c, hc⟩
+  · exact hev f f' hfe (h f (List.mem_of_getElem? hf))
+  · rw [hc]; exact hnew c
+
 /-- **Induction principle for per-flow invariants.**  No hypothesis on the schedule at all. -/
 theorem flow_invariant (I : Flow → Prop) (hnew : ∀ c, I (newFlow c))
     (hev : ∀ f f', FlowEv f f' → I f → I f') (w : World) (h : ∀ f ∈ w.flows, I f) (steps : List Step) :
@@ -274,11 +283,6 @@ theorem flow_invariant (I : Flow → Prop) (hnew : ∀ c, I (newFlow c))
   | nil => exact h
   | cons st rest ih =>
     simp only [World.run, List.foldl_cons]
-    apply ih
-    intro f' hf'
-    obtain ⟨j, hj⟩ := List.getElem?_of_mem hf'
-    rcases step_flowsEv w st j f' hj with ⟨f, hf, hfe⟩ | ⟨_, c, hc⟩
-    · exact hev f f' hfe (h f (List.mem_of_getElem? hf))
-    · rw [hc]; exact hnew c
+    exact ih _ (flow_invariant_step I hnew hev w h st)
 
 end Sshuttle.Tunnel
